@@ -225,6 +225,7 @@ type agentScript struct {
 	upScript []string // behaviour per upstream connection attempt
 	stopMs   []int    // per generation: pause between the last record sent and the stop request
 	seed     int64
+	hostile  bool     // an additional client per generation sends hostile byte streams and disconnects abruptly
 }
 
 func (s agentScript) op() Op {
@@ -237,12 +238,19 @@ func (s agentScript) op() Op {
 		up = "-"
 	}
 	return Op{Name: "agent script", Strs: []string{s.mode, s.quota, up, strings.Join(stop, ",")},
-		Ints: []int64{int64(s.maxDurMs), int64(s.gens), int64(s.conns), int64(s.recs), int64(s.apps), s.seed}}
+		Ints: []int64{int64(s.maxDurMs), int64(s.gens), int64(s.conns), int64(s.recs), int64(s.apps), s.seed, b2i(s.hostile)}}
+}
+
+func b2i(b bool) int64 {
+	if b {
+		return 1
+	}
+	return 0
 }
 
 func agentScriptOf(o Op) agentScript {
 	s := agentScript{mode: o.Strs[0], quota: o.Strs[1], maxDurMs: int(o.Ints[0]), gens: int(o.Ints[1]), conns: int(o.Ints[2]),
-		recs: int(o.Ints[3]), apps: int(o.Ints[4]), seed: o.Ints[5]}
+		recs: int(o.Ints[3]), apps: int(o.Ints[4]), seed: o.Ints[5], hostile: len(o.Ints) > 6 && o.Ints[6] != 0}
 	if o.Strs[2] != "-" {
 		s.upScript = strings.Split(o.Strs[2], ",")
 	}
@@ -360,7 +368,12 @@ func runAgent(sc agentScript) (obs agentObs) {
 					w.Flush()
 				}(c)
 			}
+			hostileLines := int64(0)
+			if sc.hostile {
+				hostileLines = sendHostile(addrs[0], rand.New(rand.NewSource(rng.Int63())))
+			}
 			wg.Wait()
+			_ = hostileLines
 			// the property speaks of records the agent has read: wait until the input counters cover every line sent
 			mu.Lock()
 			want := int64(len(obs.sent)+obs.filtered+obs.malformed) - linesBefore
@@ -409,6 +422,46 @@ func runAgent(sc agentScript) (obs agentObs) {
 	obs.chunks = append(obs.chunks, up.chunks...)
 	up.mu.Unlock()
 	return obs
+}
+
+// sendHostile opens connections that send malformed headers, NIL / short timestamps, oversized fields and lines, invalid
+// UTF-8 and binary garbage, and that disconnect abruptly (reset, or in the middle of a record)
+func sendHostile(addr string, rng *rand.Rand) int64 {
+	n := int64(0)
+	for k := 0; k < 3; k++ {
+		conn, err := net.Dial("tcp", addr)
+		if err != nil {
+			continue
+		}
+		for i := 0; i < 15; i++ {
+			var b []byte
+			switch rng.Intn(6) {
+			case 0:
+				b = []byte(badLines[rng.Intn(len(badLines))])
+			case 1:
+				b = make([]byte, 1+rng.Intn(3000))
+				rng.Read(b)
+			case 2:
+				b = []byte("<14>1 - h a 1 s - " + strings.Repeat("\xff\xfe\xc3", 1+rng.Intn(400)))
+			case 3:
+				b = []byte("<14>1 2020-01-02T03:04:05Z " + strings.Repeat("H", 1+rng.Intn(70000)) + " a 1 s - oversized host")
+			case 4:
+				b = []byte("<14>1 2020-01-02T03:04:05Z h a 1 s - " + strings.Repeat("M", 1+rng.Intn(300000)))
+			default:
+				b = []byte("<999>1 2020-01-02T03 h a 1 s [ unterminated")
+			}
+			conn.Write(append(b, '\n'))
+			n++
+		}
+		switch k {
+		case 0:
+			conn.(*net.TCPConn).SetLinger(0) // reset
+		case 1:
+			conn.Write([]byte("<14>1 2020-01-02T03:04:05Z h a 1 s - cut in the mid")) // no newline: abrupt end inside a record
+		}
+		conn.Close()
+	}
+	return n
 }
 
 // dumpGatherer sums every metric of the gatherer by name (labels and the per-run prefix removed)
@@ -508,7 +561,7 @@ type agentComp struct {
 }
 
 func init() {
-	for _, p := range []string{"c01", "c05", "c18", "c19"} {
+	for _, p := range []string{"c01", "c05", "c07", "c18", "c19"} {
 		p := p
 		register("agent-"+p, func() Component { return &agentComp{prop: p} })
 	}
@@ -539,7 +592,7 @@ func (a *agentComp) Oracle(c Case, impl []string) string {
 		}
 		var msg string
 		switch a.prop {
-		case "c01":
+		case "c01", "c07":
 			msg = oracleC01(obs)
 		case "c05":
 			msg = oracleC05(obs)
@@ -723,6 +776,10 @@ func (a *agentComp) Generate(rng *rand.Rand, n int, emit func(Case)) {
 		}
 		if len(sc.stopMs) == 0 {
 			sc.stopMs = []int{0}
+		}
+		if a.prop == "c07" {
+			sc.hostile = true
+			sc.upScript = nil // the upstream is healthy: this component is about the input side
 		}
 		mk(sc, "random")
 	}
